@@ -631,6 +631,10 @@ object_t *clone_object (const char *str1, int num_arg) {
     }
   num_objects_this_thread = 0;
   ob = find_or_load_object (str1);
+  /* Loading the blueprint has run LPC code (its create(), those of the programs it inherits):
+   * what we found out about the euid before that may not be true any more. */
+  if (current_object && current_object != master_ob && current_object->euid == 0)
+    error ("*Attempt to create object without effective UID.");
   if (ob && !object_visible (ob))
     ob = 0;
   /*
